@@ -16,6 +16,12 @@ import (
 	"github.com/relab/hotstuff/core/eventloop"
 	"github.com/relab/hotstuff/core/logging"
 	"github.com/relab/hotstuff/internal/proto/clientpb"
+	"github.com/relab/hotstuff/internal/proto/hotstuffpb"
+	"github.com/relab/hotstuff/server"
+	"github.com/relab/gorums"
+	"google.golang.org/grpc/metadata"
+	"google.golang.org/grpc/peer"
+	"google.golang.org/protobuf/proto"
 	"github.com/relab/hotstuff/protocol"
 	"github.com/relab/hotstuff/protocol/comm"
 	"github.com/relab/hotstuff/protocol/consensus"
@@ -56,6 +62,8 @@ type replicaFam struct {
 	lr        leaderrotation.LeaderRotation
 	fetchable map[hotstuff.Hash]*hotstuff.Block
 	log       []func() string
+	svc       hotstuffpb.ConsensusServer
+	nwire     int
 }
 
 func init() {
@@ -98,12 +106,13 @@ func (s recSender) Timeout(t hotstuff.TimeoutMsg) {
 func (s recSender) Propose(p *hotstuff.ProposeMsg) {
 	s.f.nameOwn(p.Block)
 	s.f.log = append(s.f.log, func() string {
+		b := p.Block
+		qc := s.f.dQC(b.QuorumCert()) // numbered before the aggregate QC, as the model renders it
 		ag := "-"
 		if p.AggregateQC != nil {
 			ag = s.f.dAgg(*p.AggregateQC)
 		}
-		b := p.Block
-		return fmt.Sprintf("propose(%s,v=%d,parent=%s,qc=%s,agg=%s)", s.f.hashName(b.Hash()), b.View(), s.f.hashName(b.Parent()), s.f.dQC(b.QuorumCert()), ag)
+		return fmt.Sprintf("propose(%s,v=%d,parent=%s,qc=%s,agg=%s)", s.f.hashName(b.Hash()), b.View(), s.f.hashName(b.Parent()), qc, ag)
 	})
 }
 
@@ -222,6 +231,7 @@ func (f *replicaFam) build(r int, rulesName, leader string) string {
 	f.proposer = consensus.NewProposer(f.el, cfg, f.chain, f.states, f.ruleset, cl, f.voter, cmds, committer)
 	synchronizer.New(f.el, logger, cfg, auth, lr, synchronizer.NewFixedDuration(24*time.Hour),
 		synchronizer.NewTimeoutRuler(cfg, auth), f.proposer, f.voter, f.states, snd)
+	f.svc = server.VerifService(server.NewServer(f.el, logger, cfg, f.chain))
 	eventloop.Register(f.el, func(e hotstuff.ViewChangeEvent) {
 		f.log = append(f.log, func() string {
 			k := "normal"
@@ -343,6 +353,18 @@ func (f *replicaFam) op(a []string) (out string) {
 		f.el.AddEvent(hotstuff.TimeoutEvent{View: v})
 		f.run()
 		return f.flush()
+	case "wire":
+		// wire <propose|vote|timeout|newview> <object> [<block>] from=<id> [drop=<f1,f2,...>] :
+		// ToProto, field removal on the proto message, real Marshal/Unmarshal, the real gorums handler
+		if len(a) < 3 {
+			return "bad-op"
+		}
+		res := f.wireDeliver(a, kv)
+		if res != "" {
+			return res
+		}
+		f.run()
+		return f.flush()
 	case "deliver":
 		if len(a) < 3 {
 			return "bad-op"
@@ -411,3 +433,157 @@ func (f *replicaFam) startLeader() {
 		_ = f.proposer.Propose(&p)
 	}
 }
+
+func (f *replicaFam) peerCtx(kv map[string]string) gorums.ServerCtx {
+	ctx := peer.NewContext(context.Background(), &peer.Peer{})
+	if id, ok := kv["from"]; ok {
+		ctx = metadata.NewIncomingContext(ctx, metadata.Pairs("id", id))
+	}
+	return gorums.ServerCtx{Context: ctx}
+}
+
+func dropSet(kv map[string]string) map[string]bool {
+	m := map[string]bool{}
+	if d, ok := kv["drop"]; ok && d != "-" {
+		for _, x := range strings.Split(d, ",") {
+			m[x] = true
+		}
+	}
+	return m
+}
+
+func dropQC(q *hotstuffpb.QuorumCert, pre string, d map[string]bool) *hotstuffpb.QuorumCert {
+	if q == nil || d[pre] {
+		return nil
+	}
+	if d[pre+".sig"] {
+		q.Sig = nil
+	}
+	if d[pre+".hash"] {
+		q.Hash = nil
+	}
+	return q
+}
+
+func dropSI(si *hotstuffpb.SyncInfo, d map[string]bool) *hotstuffpb.SyncInfo {
+	if si == nil || d["si"] {
+		return nil
+	}
+	si.QC = dropQC(si.QC, "qc", d)
+	if d["tc"] {
+		si.TC = nil
+	} else if si.TC != nil && d["tc.sig"] {
+		si.TC.Sig = nil
+	}
+	if d["agg"] {
+		si.AggQC = nil
+	} else if si.AggQC != nil && d["agg.sig"] {
+		si.AggQC.Sig = nil
+	}
+	return si
+}
+
+// wireDeliver returns a non-empty string when the op cannot be carried out.
+func (f *replicaFam) wireDeliver(a []string, kv map[string]string) string {
+	d := dropSet(kv)
+	ctx := f.peerCtx(kv)
+	switch a[1] {
+	case "propose":
+		b, ok := f.blocks[a[2]]
+		if !ok {
+			return "bad-op"
+		}
+		p := hotstuff.ProposeMsg{ID: b.Proposer(), Block: b}
+		if kv["agg"] != "" && kv["agg"] != "-" {
+			g, ok := f.aggs[kv["agg"]]
+			if !ok {
+				return "bad-op"
+			}
+			p.AggregateQC = &g
+		}
+		pb := hotstuffpb.ProposalToProto(p)
+		if d["block"] {
+			pb.Block = nil
+		} else {
+			pb.Block.QC = dropQC(pb.Block.QC, "block.qc", d)
+			if d["block.parent"] {
+				pb.Block.Parent = nil
+			}
+			if d["block.commands"] {
+				pb.Block.Commands = nil
+			}
+			if d["block.timestamp"] {
+				pb.Block.Timestamp = nil
+			}
+		}
+		if d["agg"] {
+			pb.AggQC = nil
+		} else if pb.AggQC != nil && d["agg.sig"] {
+			pb.AggQC.Sig = nil
+		}
+		f.nwire++
+		if pb.Block != nil {
+			// name the block the handler will decode (the proposer is overwritten with the peer id)
+			cp := wire(pb, &hotstuffpb.Proposal{})
+			from, _ := strconv.ParseUint(kv["from"], 10, 32)
+			cp.Block.Proposer = uint32(from)
+			got := hotstuffpb.BlockFromProto(cp.Block)
+			known := false
+			for _, x := range f.blocks {
+				if x.Hash() == got.Hash() {
+					known = true
+				}
+			}
+			if !known {
+				f.blocks[fmt.Sprintf("W%d", f.nwire)] = got
+			}
+		}
+		f.svc.Propose(ctx, wire(pb, &hotstuffpb.Proposal{}))
+	case "vote":
+		if len(a) < 4 {
+			return "bad-op"
+		}
+		s, ok := f.sigs[a[2]]
+		h, ok2 := f.hashOf(a[3])
+		if !ok || !ok2 {
+			return "bad-op"
+		}
+		pb := hotstuffpb.PartialCertToProto(hotstuff.NewPartialCert(s, h))
+		if d["sig"] {
+			pb.Sig = nil
+		}
+		if d["hash"] {
+			pb.Hash = nil
+		}
+		f.svc.Vote(ctx, wire(pb, &hotstuffpb.PartialCert{}))
+	case "timeout":
+		t, ok := f.tmos[a[2]]
+		if !ok {
+			return "bad-op"
+		}
+		pb := hotstuffpb.TimeoutMsgToProto(t)
+		if d["viewsig"] {
+			pb.ViewSig = nil
+		}
+		if d["msgsig"] {
+			pb.MsgSig = nil
+		}
+		pb.SyncInfo = dropSI(pb.SyncInfo, d)
+		f.svc.Timeout(ctx, wire(pb, &hotstuffpb.TimeoutMsg{}))
+	case "newview":
+		si, ok := f.sis[a[2]]
+		if !ok {
+			return "bad-op"
+		}
+		pb := dropSI(hotstuffpb.SyncInfoToProto(si), d)
+		if pb == nil {
+			pb = &hotstuffpb.SyncInfo{}
+		}
+		f.svc.NewView(ctx, wire(pb, &hotstuffpb.SyncInfo{}))
+	default:
+		return "bad-op"
+	}
+	return ""
+}
+
+var _ = proto.Marshal
